@@ -18,10 +18,16 @@ def history_part(ctx):
             out.append((rec, f"scenario did not finish: {rec['status']}"))
             continue
         for c, o in zip(rec['scenario']['calls'], rec['result']['calls']):
+            if c.get('kind') == 'apply_batch':
+                msg = S.check_apply_batch(c, o)
+                if msg:
+                    out.append((rec, msg))
+                    break
+                continue
             if 'n' not in c:
                 continue
             n += 1
-            msg = S.check_value(c, o)
+            msg = S.check_value(c, o) or S.check_own_function(c, rec)
             if msg:
                 out.append((rec, f"call base={c['base']}: {msg}"))
                 break
@@ -70,7 +76,8 @@ def run(ctx):
     for rec, msg in bad[:2]:
         again = runner.run_many([rec['scenario']] * 2, 'c01_hist_re', jobs=2)
         still = [r for r in again if r['status'] != 'done' or any(
-            S.check_value(c, o) for c, o in zip(r['scenario']['calls'], (r['result'] or {'calls': []})['calls']) if 'n' in c)]
+            (S.check_value(c, o) or S.check_own_function(c, r)) if 'n' in c else S.check_apply_batch(c, o)
+            for c, o in zip(r['scenario']['calls'], (r['result'] or {'calls': []})['calls']) if 'n' in c or c.get('kind') == 'apply_batch')]
         if still:
             res['violations'].append(dict(found_input=True, what=msg, signature='C01:history',
                                           replay=dict(kind='scenario', scenario=rec['scenario'], got=msg, history=True)))
@@ -87,8 +94,8 @@ def replay(payload):
         print("status:", r['status'])
         bad = r['status'] != 'done'
         for c, o in zip(r['scenario']['calls'], (r['result'] or {'calls': []})['calls']):
-            if 'n' in c:
-                m = S.check_value(c, o)
+            if 'n' in c or c.get('kind') == 'apply_batch':
+                m = (S.check_value(c, o) or S.check_own_function(c, r)) if 'n' in c else S.check_apply_batch(c, o)
                 if m:
                     print("oracle:", m)
                     bad = True
